@@ -156,6 +156,12 @@ Tpl(name) ==
       [] name = "N23u" -> List(<<List(<<KAtom(ua), KAtom(uk)>>), List(<<KAtom(uk), KAtom(uk), KAtom(ua)>>)>>)
       [] name = "N1" -> List(<<List(<<KAtom(nu), KAtom(ua)>>)>>)
       [] name = "Nz" -> List(<<List(<<KAtom(ze), KAtom(ua)>>), KAtom(ze)>>)
+      \* zeros only at the deepest level, under sub-lists that hold only lists / only units and lists
+      [] name = "Dz1" -> List(<<List(<<List(<<KAtom(ua), KAtom(ze)>>), List(<<KAtom(ze), KAtom(ua)>>)>>)>>)
+      [] name = "Dz2" -> List(<<List(<<KAtom(ua), List(<<KAtom(ze), KAtom(ua)>>)>>), KAtom(ua)>>)
+      [] name = "Dz3" -> List(<<List(<<List(<<KAtom(ze)>>)>>), KAtom(ze), List(<<KAtom(ua), KAtom(ua)>>)>>)
+      [] name = "Dz4" -> List(<<List(<<List(<<List(<<KAtom(ze), KAtom(ua)>>)>>)>>)>>)
+      [] name = "Dz5" -> List(<<List(<<KAtom(ua), KAtom(ua)>>), List(<<List(<<KAtom(ua), List(<<KAtom(ze), KAtom(ze)>>)>>)>>)>>)
       [] name = "D3" -> List(<<List(<<List(<<KAtom(ua), KAtom(nu)>>), KAtom(uk)>>), KAtom(ua)>>)
       [] name = "D3u" -> List(<<List(<<List(<<KAtom(ua), KAtom(uk)>>), KAtom(uk)>>), KAtom(ua)>>)
 
